@@ -54,9 +54,16 @@ class Profile:
             if x < 0:
                 break
         if tier == "thorough":
+            # deeper: longer horizons, larger networks (one more node / class than the quick tier ever uses), more pauses
             P = dict(P)
             P["horizon"] = [h * 3 for h in P["horizon"]] + list(P["horizon"])
             P["stepcap"] = P["stepcap"] * 3
+            if not P.get("_meta") and max(P["n"]) < 5:
+                P["n"] = list(P["n"]) + [max(P["n"]) + 1]
+            if max(P["k"]) < 4:
+                P["k"] = list(P["k"]) + [max(P["k"]) + 1]
+            if P.get("splits"):
+                P["splits"] = P["splits"] + 2
         return P
 
     def run(self, S):
